@@ -61,7 +61,9 @@ def catalogue(year):
         insts = getattr(cls, 'valid_instances', None)
         obj = cls(instance=(insts[0] if insts else None))
         ins = {}
+        iobjs = {}
         for i in obj.inputs():
+            iobjs[i.base_name()] = i
             spec = {'type': input_type(i)}
             if spec['type'] in ('enum', 'enum_empty'):
                 spec['members'] = list(i.enum.__members__)
@@ -71,7 +73,7 @@ def catalogue(year):
         req = [f.base_name() for f in obj.required_fields()]
         opt = [f.base_name() for f in obj.fields() if f.base_name() not in set(req)]
         ftypes = {f.base_name(): field_type(f) for f in obj.fields()}
-        cat[cls.form_name] = {'cls': cls, 'instances': list(insts) if insts else None, 'inputs': ins,
+        cat[cls.form_name] = {'cls': cls, 'instances': list(insts) if insts else None, 'inputs': ins, 'input_objs': iobjs,
                               'required': req, 'optional': opt, 'field_types': ftypes,
                               'places': {f.base_name(): getattr(f, '_places', None) for f in obj.fields()},
                               'is_inputform': isinstance(obj, hb_form.InputForm)}
@@ -254,6 +256,27 @@ class Persona(object):
         if f is None:
             return None
         return f['inputs'].get(base)
+
+    def input_obj(self, q):
+        form, inst, base = split_name(q)
+        f = self.cat.get(form)
+        return None if f is None else f['input_objs'].get(base)
+
+    def invalid_texts(self, q):
+        """texts the input's own valid() rejects (so a legitimately changed grammar is never an alarm)"""
+        from .gen import INVALID
+        spec, obj = self.spec(q), self.input_obj(q)
+        if spec is None or obj is None:
+            return []
+        cands = list(INVALID.get(spec['type'], [])) + ['?!', 'not valid']
+        out = []
+        for t in cands:
+            try:
+                if not obj.valid(t):
+                    out.append(t)
+            except Exception:
+                pass
+        return out
 
     def text(self, q):
         if q in self.over:
